@@ -21,7 +21,7 @@
 (* order open (listed at NameCmpSet).  An observed result r is acceptable  *)
 (* iff r \in XCmpSet(...).                                                 *)
 (***************************************************************************)
-EXTENDS Integers, Sequences, FiniteSets
+EXTENDS Integers, Sequences, FiniteSets, TLC
 
 Sgn(x) == IF x < 0 THEN -1 ELSE IF x > 0 THEN 1 ELSE 0
 NegSet(S) == {0 - x : x \in S}
@@ -325,14 +325,24 @@ MatrixIsTotalPreorder(M, n) ==
   /\ \A i, j, k \in 1..n : (M[i][j] <= 0 /\ M[j][k] <= 0) => M[i][k] <= 0
 
 \* Documented comparison matrix of an argument list (positions = indices).
+\* (TLCEval: TLC would otherwise re-evaluate an entry at every use.)
 ArgMatrix(attr, names) ==
-  [i \in 1..Len(names) |-> [j \in 1..Len(names) |->
-     ArgNameCmp(attr, names[i], names[j], i, j)]]
+  LET nums == TLCEval([i \in 1..Len(names) |-> Num(names[i])])
+      nameCmp(i, j) ==
+        IF nums[i].k \in {"int", "dec"} /\ nums[j].k \in {"int", "dec"}
+          THEN ValCmp(nums[i], nums[j]) ELSE NaturalCmp(names[i], names[j])
+      key(k, i, j) == CASE k = "kind" -> 0 [] k = "name" -> nameCmp(i, j) [] k = "location" -> Sgn(i - j)
+      keys == TieBreakers(attr)
+      cmp(i, j) == IF key(keys[1], i, j) # 0 THEN key(keys[1], i, j)
+                   ELSE IF key(keys[2], i, j) # 0 THEN key(keys[2], i, j)
+                   ELSE key(keys[3], i, j)
+  IN TLCEval([i \in 1..Len(names) |-> TLCEval([j \in 1..Len(names) |-> cmp(i, j)])])
 
 \* The documented relation is a total preorder on this very list.  (On lists
 \* that mix numeric and non-numeric names it need not be: ".1" < ".a" and
 \* ".a" < "0" in natural order but "0" < ".1" by value.)
-ArgOrderIsTotalOn(attr, names) == MatrixIsTotalPreorder(ArgMatrix(attr, names), Len(names))
+ArgOrderIsTotalOn(attr, names) ==
+  LET M == ArgMatrix(attr, names) IN MatrixIsTotalPreorder(M, Len(names))
 
 IsPermutationOf(perm, n) ==
   /\ Len(perm) = n
